@@ -303,6 +303,24 @@ where
     }
 }
 
+#[cfg(feature = "verif_hooks")]
+impl<Model> FitStatistics<Model>
+where
+    Model: SeparableNonlinearModel,
+    DefaultAllocator: Allocator<Dyn, Dyn>,
+    DefaultAllocator: Allocator<Dyn>,
+{
+    /// verification hook: the stored degrees of freedom
+    pub fn verif_degrees_of_freedom(&self) -> usize {
+        self.degrees_of_freedom
+    }
+
+    /// verification hook: the stored per-sample sqrt(j_i^T Cov j_i)
+    pub fn verif_unscaled_confidence_sigma(&self) -> OVector<Model::ScalarType, Dyn> {
+        self.unscaled_confidence_sigma.clone()
+    }
+}
+
 /// extrant the half  open range `[Start,End)` from the given vector.
 fn extract_range<ScalarType, D, Start, End>(
     vector: &OVector<ScalarType, D>,
